@@ -438,6 +438,22 @@ func doBuiltBoxes(seed uint64) {
 			boxCheck(sb, how)
 		}
 	}
+	// ... and per-sample IVs on some samples only (AddSample reports an error for the samples it refuses)
+	for m := 0; m < 8; m++ {
+		sb := mp4.CreateSencBox()
+		how := "CreateSencBox; AddSample x 3, 8-byte IV on samples"
+		for i := 0; i < 3; i++ {
+			var ss mp4.SencSample
+			if m&(1<<uint(i)) != 0 {
+				ss.IV = r.Bytes(8, nil)
+				how += fmt.Sprintf(" %d", i)
+			}
+			if err := sb.AddSample(ss); err != nil {
+				how += "(refused)"
+			}
+		}
+		boxCheck(sb, how)
+	}
 	boxCheck(mp4.CreateMfhd(7), "CreateMfhd(7)")
 	boxCheck(mp4.CreateTrex(2), "CreateTrex(2)")
 	boxCheck(mp4.CreateMvhd(), "CreateMvhd()")
